@@ -283,7 +283,7 @@ func execProgram(text string, ansi bool) (res stRes) {
 	}
 	ctx, cancel := context.WithTimeout(context.Background(), 20*time.Second)
 	defer cancel()
-	s, err := run.NewSess(run.Opt{Dir: fixtureDir(), CPU: 1, Ctx: ctx, CaptureOut: true})
+	s, err := run.NewSess(sessOpt(ctx, text, false, ansi, true))
 	if err != nil {
 		return stRes{skipped: "session: " + err.Error()}
 	}
@@ -303,7 +303,7 @@ func execProgram(text string, ansi bool) (res stRes) {
 		res.errCls, res.errMsg = run.ErrClass(r.Err), r.Err.Error()
 	}
 	res.out = s.Out.String()
-	pr := s.Exec("SELECT a, b FROM tmp; SELECT @v1, @v2, @v3;")
+	pr := s.Exec("SELECT a, b FROM tmp; SELECT @v1, @v2, @v3 FROM DUAL;")
 	if ctx.Err() != nil {
 		return stRes{skipped: "time limit"}
 	}
